@@ -158,7 +158,7 @@ func Decl(r *vk.RNG, o DeclOpts) *model.Decl {
 		if o.SelIndexed {
 			k := 0
 			for i := range ins {
-				if ins[i].Indexed { // all of them: partial selections of indexed inputs are C11's subject
+				if ins[i].Indexed && r.Chance(2, 3) { // any subset (C11's subject too)
 					ins[i].Column = fmt.Sprintf("ix%d", k)
 					k++
 				}
